@@ -84,11 +84,11 @@ def gen_cases(rng, tier):
 def observe(c):
   d = lg.build(c['leaf'])
   s, p = np.array(fl(c['s'])), np.array(fl(c['p']))
-  H = np.array(d.hess(s, p), dtype=float)
+  H = np.array(core.maybe_stale(c, d.hess, s, p), dtype=float)
   n = c['leaf']['n']
   if H.shape != (n, n):
     raise ValueError('hess shape %s' % (H.shape,))
-  return {'cost': fr(d.cost(s, p)), 'hess': [fr(list(r)) for r in H]}
+  return {'cost': fr(core.maybe_stale(c, d.cost, s, p)), 'hess': [fr(list(r)) for r in H]}
 
 
 def coq_case(c, o):
@@ -115,7 +115,7 @@ def oracle(c, h=2.0 ** -7):
   try:
     d = lg.build(L)
     s, p = np.array(fl(c['s'])), np.array(fl(c['p']))
-    H = np.array(d.hess(s, p), dtype=float)
+    H = np.array(core.maybe_stale(c, d.hess, s, p), dtype=float)
   except Exception as e:
     return 'implementation raised %s: %s' % (type(e).__name__, e)
   if H.shape != (n, n):
